@@ -13,7 +13,7 @@ rows = ["| seed | property | change (sub-agent's summary) | needs | detected by 
 for dd in sorted(glob.glob('/verif/seeded/C*-*/')):
     m = json.load(open(dd + 'meta.json'))
     name = os.path.basename(dd.rstrip('/'))
-    rows.append("| %s | %s | %s | %s | %s |" % (name, m['property'], (m['summary'] or '').replace('|', '/').replace('\n', ' ')[:260], (m['needs'] or '').replace('|', '/').replace('\n', ' ')[:200], ", ".join(m['confirmed']['detected_by_quick_checks'])))
+    rows.append("| %s | %s | %s | %s | %s |" % (name, m['property'], (m['summary'] or '').replace('|', '/').replace('\n', ' ')[:260], (m['needs'] or '').replace('|', '/').replace('\n', ' ')[:200], (", ".join(m['confirmed']['detected_by_quick_checks']) if m.get('expect_detected') is not False else ("not a violation on the current tree (see text)" + ("; before fix: " + ", ".join(m['confirmed'].get('detected_before_fix_by', [])) if m['confirmed'].get('detected_before_fix_by') else "")))))
 seeds = "\n".join(rows)
 # mutants
 mr = ["| mutant | property | check exit | VIOLATION lines | first counterexample |", "|---|---|---|---|---|"]
@@ -24,6 +24,11 @@ if os.path.exists(p):
             continue
         mr.append("| %s | %s | %s | %s | %s |" % (r['mutant'], r['property'], r['check_exit'], r['violation_lines'], r['first'].replace('|', '/')[:160]))
 mut = "\n".join(mr)
+# round-4 first-run statistics from the kept metadata (-7 / -8 seeds)
+r4 = [json.load(open(dd + 'meta.json')) for dd in sorted(glob.glob('/verif/seeded/C*-[78]/'))]
+own = sum(1 for m in r4 if m['confirmed'].get('own_property_check_detected_on_first_run'))
+r4_stats = "%d of %d were caught at once by the targeted check; the others were observed misses of that check (some of them reported by the check of another property, see the table)" % (own, len(r4))
+tail = tail.replace('@@R4_STATS@@', r4_stats)
 tail = tail.replace('@@COVERAGE_TABLE@@', cov).replace('@@SEED_TABLE@@', seeds).replace('@@MUTANT_TABLE@@', mut)
 open('/verif/DESIGN.md', 'w').write(d.rstrip('\n') + "\n\n" + head + tail)
 print("DESIGN.md assembled: %d bytes" % os.path.getsize('/verif/DESIGN.md'))
